@@ -163,12 +163,15 @@ fn cmd_check(prop: &str, tier: &str) -> i32 {
         "wall_s": wall,
         "violations": violations,
     });
-    let evdir = verif_dir().join("evidence");
-    let _ = std::fs::create_dir_all(&evdir);
-    let evpath = evdir.join(format!("{}.json", def.id));
-    if let Err(e) = std::fs::write(&evpath, serde_json::to_string_pretty(&ev).unwrap()) {
-        eprintln!("cannot write evidence {}: {}", evpath.display(), e);
-        return 2;
+    // a secondary run (other build profile of the harness, VERIF_SKIP_EVIDENCE set) keeps the evidence file of the primary run
+    if std::env::var("VERIF_SKIP_EVIDENCE").is_err() {
+        let evdir = verif_dir().join("evidence");
+        let _ = std::fs::create_dir_all(&evdir);
+        let evpath = evdir.join(format!("{}.json", def.id));
+        if let Err(e) = std::fs::write(&evpath, serde_json::to_string_pretty(&ev).unwrap()) {
+            eprintln!("cannot write evidence {}: {}", evpath.display(), e);
+            return 2;
+        }
     }
     for s in &out.subs {
         eprintln!("[{}] {:<28} evals={:<9} nontrivial={:<8} {}", def.id, s.name, s.obs.evals, s.obs.nontrivial.len(), if s.exhaustive { "exhaustive" } else { "" });
